@@ -8,7 +8,9 @@ import (
 
 	"golang.org/x/time/rate"
 	"k8s.io/apimachinery/pkg/runtime"
+	"k8s.io/client-go/tools/record"
 	"sigs.k8s.io/controller-runtime/pkg/client"
+	"sigs.k8s.io/controller-runtime/pkg/reconcile"
 
 	networkv1beta1 "github.com/AliyunContainerService/terway/pkg/apis/network.alibabacloud.com/v1beta1"
 	"github.com/AliyunContainerService/terway/types/daemon"
@@ -87,4 +89,9 @@ func (r *CRDV2) VerifPendingDeleted() []string {
 		out = append(out, k)
 	}
 	return out
+}
+
+// NewVerifNodeReconcile builds the daemon-side Node CR reconciler over an injected client.
+func NewVerifNodeReconcile(c client.Client, rec record.EventRecorder, nodeName string) reconcile.Reconciler {
+	return &nodeReconcile{client: c, record: rec, nodeName: nodeName}
 }
